@@ -277,6 +277,12 @@ pub fn feed_phase(stream: &[u8], pieces: &[usize]) -> (Vec<Value>, bool) {
                             d.set_max_chunk_size(sz as usize).map_err(|e| format!("err:setcs:{:?}", e))?;
                         }
                         outs.push(payload_json(&p));
+                        // no run of this harness holds more than a few thousand messages: a flood is recorded as a failure of
+                        // this call (and keeps the log readable) instead of a million-element event
+                        if outs.len() > 50_000 {
+                            outs.truncate(20);
+                            return Err("err:runaway output: more than 50000 messages returned by one input call".to_string());
+                        }
                     }
                     Ok(None) => return Ok(()),
                     Err(e) => return Err(format!("err:{:?}", e)),
@@ -437,6 +443,17 @@ pub fn run_foreign(run: &mut Run, rng: &mut Rng, nmsgs: usize, lim: &Limits, int
     let tiny = Limits { max_len: 6, max_chunks: 2 };
     let lim = if many { &tiny } else { lim };
     let mut csids: Vec<u32> = Vec::new();
+    if interleave && !crowd && rng.chance(1, 3) {
+        // an ALIASING family: chunk stream ids that differ in one byte / one bit of their encoded form (c, c+1, c+256, c+512, c^0x80):
+        // a receiver that mis-assembles an id makes two of them collide
+        let hi = rng.range(0, 254) as u32;
+        let lo = if rng.chance(1, 2) { rng.range(192, 255) as u32 } else { rng.range(0, 255) as u32 };
+        let c = 64 + hi * 256 + lo;
+        for cand in [c, c + 256, c + 512, c + 1, c ^ 0x80].iter() {
+            if *cand >= 2 && *cand <= 65599 && !csids.contains(cand) && csids.len() < 4 { csids.push(*cand); }
+        }
+    }
+    let ncs = ncs.max(csids.len());
     while csids.len() < ncs {
         let c = if rng.chance(4, 5) { *rng.pick(&CSID_TABLE) } else { rng.range(2, 65599) as u32 };
         if !csids.contains(&c) {
